@@ -1,5 +1,6 @@
 (* Case type and the two checks evaluated on harness cases for C05. *)
-From FH Require Import Model.Base Gen.GenC05 Model.Ints Model.ByteClassModel Model.Cookie Model.HeaderWrite Spec.HeadLines.
+From FH Require Import Model.Base Gen.GenC05 Model.Ints Model.ByteClassModel Model.Cookie Model.HeaderWrite Model.ReqUri Spec.HeadLines.
+From FH Require Model.Args.
 Open Scope N_scope.
 
 (* what a second-opinion parser (fasthttp's own, net/http) reported about the serialised bytes:
@@ -16,6 +17,10 @@ Inductive c05case :=
 (* Request.Write: header ops, then the URI-derived inputs (read from the real URI object), body; None = error *)
 | CReqWrite (ops : list qop) (parsedURI useHostHeader : bool) (uriHost uriRequestURI user pass body : bytes)
             (impl : option bytes) (peers : list peerview)
+(* Request.Write after the caller worked on the URI object obtained from req.URI(): header ops, normalizePath answers,
+   the object's state right after req.URI() (read through its getters), the URI setter calls, body; None = error *)
+| CReqWriteU (ops : list qop) (parsedURI useHostHeader : bool) (np : list (bytes * bytes)) (u0 : uriobj) (uops : list uop)
+             (body : bytes) (impl : option bytes) (peers : list peerview)
 (* httpProxyDial: target address, base64 auth; what was written to the proxy connection (None = refused before dialing) *)
 | CConnect (addr auth : bytes) (impl : option bytes) (peers : list peerview)
 (* removeNewLines on its own *)
@@ -36,6 +41,8 @@ Definition corr_ok (c : c05case) : bool :=
       beq (snd (ResponseWrite (fun _ => smsg) fixedDate (rrun ops) skip body)) impl
   | CReqWrite ops parsed useHost uh uu user pass body impl _ =>
       obeq (option_map snd (RequestWrite (qrun ops) parsed useHost uh uu user pass body)) impl
+  | CReqWriteU ops parsed useHost np u0 uops body impl _ =>
+      obeq (option_map snd (RequestWriteU (qrun ops) parsed useHost (urun (np_of_table np) u0 uops) body)) impl
   | CConnect addr auth impl _ => obeq (connectRequest addr auth) impl
   | CRNL s impl => beq (removeNewLines s) impl
   end.
@@ -133,6 +140,13 @@ Definition prop_ok (c : c05case) : bool :=
   | CReqWrite ops _ _ _ _ _ _ body impl peers =>
       match impl with
       | None => true                                   (* the message is refused *)
+      | Some out =>
+          judge (req_always ++ [N_ "Host"; N_ "Authorization"; N_ "Content-Length"] ++ flat_map qop_names ops)
+                [body; []] out peers
+      end
+  | CReqWriteU ops _ _ _ _ _ body impl peers =>
+      match impl with
+      | None => true
       | Some out =>
           judge (req_always ++ [N_ "Host"; N_ "Authorization"; N_ "Content-Length"] ++ flat_map qop_names ops)
                 [body; []] out peers
